@@ -12,6 +12,11 @@ def units():
                       "defines": ["-DUNIT_%s" % kind.upper(), "-DMETADATA_FILE=\"%s\"" % file, "-DTEXT_MAX=%s" % tmax],
                       "timeout": 900, "mem_gb": 12, "backend": "kissat",
                       "trusted": ["E1 strlen model on the library's own terminated 16 KiB buffer", "psf_strlcpy_crlf / psf_strlcat contracts (common.c): no unit yet"]})
+    U.append({"name": "strings.string_table", "props": ["C12", "C19", "C09"], "harness": "strings.harness.c", "entry": "h_strings", "dfcc": False,
+              "function": "strings.c:psf_store_string, psf_set_string, psf_get_string, psf_location_string_count",
+              "cbmc_flags": ["--object-bits", "9", "--unwind", "40", "--memory-leak-check"], "timeout": 900,
+              "kind": "bounded(strings of at most 7 characters; histories of 3 set calls; types, strings, capability flags symbolic)",
+              "trusted": ["CBMC heap model (realloc, memcpy, strlen)", "SF_STR_SOFTWARE excluded (the library appends its own name through snprintf)"]})
     return U
 
 
